@@ -268,6 +268,19 @@ def judge_expr(d):
         out.append(viol("C19/expression-value", f"{describe(e)} at scale {scale}: pipeline result differs from nested function application "
                         f"(e.g. {np.asarray(got).ravel()[:3].tolist()} vs {np.asarray(wantv).ravel()[:3].tolist()})"))
         return out
+    # a pipeline is a function: evaluating the same object again gives the same image, and the input image is not modified
+    with warnings.catch_warnings():
+        warnings.simplefilter("ignore")
+        with np.errstate(all="ignore"):
+            img_before = img.copy()
+            got2 = obj(scale) if k == "p" else obj(img, scale)
+            got3 = obj(scale) if k == "p" else obj(img, scale)
+    if not close(got2, got) or not close(got3, got):
+        out.append(viol("C19/second-evaluation-differs", f"{describe(e)} at scale {scale}: evaluating the same pipeline object again gives another image"))
+        return out
+    if not np.array_equal(img, img_before):
+        out.append(viol("C19/input-image-modified", f"{describe(e)} at scale {scale}: the input image was modified in place"))
+        return out
     # associativity of every (a @ b) @ c chain
     def chains(x):
         if x["t"] == "compose" and x["f"]["t"] == "compose":
@@ -595,7 +608,7 @@ def unit_cases(draw):
         # kernel radius int(4 sigma + 0.5): keep 4*sigma + 0.5 at least 0.05 from an integer
         d["px"] = draw(st.sampled_from([0.7, 0.95, 1.2, 1.45, 1.7, 2.2]))
     elif kind == "cov-shift":
-        d["vec"] = [draw(st.sampled_from([-1.3, 0.0, 0.4, 2.2])) for _ in range(3)]
+        d["vec"] = [draw(st.sampled_from([-1.3, 0.0, 0.4, 2.2, 1.0, -2.0, 3.0])) for _ in range(3)]
     elif kind in ("cov-dilation", "cov-closing"):
         d["px"] = draw(st.sampled_from([0.4, 0.9, 1.3, 1.7, 2.4, 2.8]))
         d["sign"] = draw(st.sampled_from([1, -1]))
